@@ -23,12 +23,17 @@ def make_source_set(rng, n, max_msgs, allow_unsorted=False, force_many=False):
         letter = chr(ord("A") + w)
         k = rng.choice([0, 1, 2, 3, max_msgs, max_msgs]) if not force_many else rng.randint(6, max_msgs + 6)
         k = min(k, max_msgs + 6)
-        frac = rng.choice([3, 6, 3, 0])
+        frac = rng.choice([3, 6, 9, 9, 0])
+        # near-equal instants: differences of 1 ns, < 1 us, 1 us, 1 ms and whole seconds, as far as the
+        # number of fractional digits written allows
+        nano_choices = {0: [0],
+                        3: [0, 0, 1_000_000, 500_000_000, 999_000_000],
+                        6: [0, 0, 1_000, 2_000, 1_000_000, 500_000_000, 999_999_000],
+                        9: [0, 0, 1, 100, 900, 999, 1_000, 1_001, 1_000_000, 500_000_000, 999_999_999]}[frac]
         inst = []
         for _ in range(k):
             sec = gen.BASE + rng.randrange(grid_secs)
-            nanos = 0 if frac == 0 else rng.choice([0, 0, 500_000_000, 250_000_000, 999_000_000])
-            inst.append((sec, nanos))
+            inst.append((sec, rng.choice(nano_choices)))
         unsorted_src = allow_unsorted and rng.random() < 0.15
         if not unsorted_src:
             inst.sort()
